@@ -46,7 +46,7 @@ pub fn trimmed(s: &str) -> bool {
 
 /// Strings for element / text positions: no leading or trailing XML white space (documented exclusion).
 pub fn text_strings(level: usize) -> Vec<String> {
-    let mut v: Vec<&str> = vec!["a", "<", "&amp;", "a b", "]]>", "\"'", "é"];
+    let mut v: Vec<&str> = vec!["a", "<", "&amp;", "a b", "]]>", "\"'", "é", "a; b<c;&", "a  b   c"];
     if level >= 1 {
         v.extend(["x<y>&z", "-->", "a\tb\nc", "&#32;", "<![CDATA[", "?>", "1"]);
     }
